@@ -40,6 +40,8 @@ def h_roundtrip(env, cls):
         return
     env.check("dict_has_registered_code", d.get("code") in td.ALL_CLASS_DICT and td.ALL_CLASS_DICT.get(d.get("code")) is type(m),
               "code=%r registry keys=%r" % (d.get("code"), sorted(map(str, td.ALL_CLASS_DICT))))
+    d_mem = d
+    d = _yaml_contract(env, d)       # the dict as a YAML file round trip hands it back (mappings in sorted-key order)
     ok, m2 = env.attempt("from_dict_returns", lambda: td.FeatureNormalizer.from_dict(d))
     if not ok:
         return
@@ -72,7 +74,29 @@ def _num(env, v):
     return v
 
 
-def h_featlist_roundtrip(env, classes):
+def _yaml_contract(env, d):
+    """what a YAML file round trip does to the *structure* of a dumped dict.  Symbolic runs use PyYAML's documented behaviour as a
+    contract stub: `yaml.dump` (default sort_keys=True) writes every mapping with its keys sorted and `yaml.load` rebuilds each
+    mapping in file order, so a reloaded mapping iterates in sorted-key order whatever order it was built in; sequences keep their
+    order and scalars their value.  Concrete replays go through the real yaml.dump / yaml.load (the loader FeatureList.load uses),
+    which also validates the stub."""
+    if env.sym:
+        def walk(v):
+            if isinstance(v, dict):
+                try:
+                    keys = sorted(v)
+                except TypeError:
+                    keys = list(v)
+                return {k: walk(v[k]) for k in keys}
+            if isinstance(v, list):
+                return [walk(x) for x in v]
+            return v
+        return walk(d)
+    import yaml
+    return yaml.load(yaml.dump(d), Loader=yaml.Loader)
+
+
+def h_featlist_roundtrip(env, classes, yaml_layer=False):
     td = env.m.td
     objs = []
     nx = 0
@@ -85,6 +109,8 @@ def h_featlist_roundtrip(env, classes):
     ok, d = env.attempt("as_dict_returns", lambda: fl.as_dict())
     if not ok:
         return
+    if yaml_layer:
+        d = _yaml_contract(env, d)
     ok, fl2 = env.attempt("from_dict_returns", lambda: td.FeatureList.from_dict(d))
     if not ok:
         return
@@ -116,6 +142,7 @@ def h_splineset(env):
     ok, d = env.attempt("to_dict_returns", lambda: ev.to_dict())
     if not ok:
         return
+    d = _yaml_contract(env, d)
     ok, ev2 = env.attempt("from_dict_returns", lambda: xe.SplineSetEvaluator.from_dict(d))
     if not ok:
         return
@@ -252,6 +279,9 @@ def tasks(tier):
     groups = [names[i:i + 3] for i in range(0, len(names), 3)] if tier == "thorough" else [names[:3], names[-3:]]
     for n, g in enumerate(groups):
         out.append(Task("featlist_roundtrip/%d" % n, h_featlist_roundtrip, dict(classes=g), max_paths=600))
+    # through the YAML layer (mappings come back in sorted-key order): long enough that "10" sorts before "2"
+    out.append(Task("featlist_roundtrip/yaml/12maps", h_featlist_roundtrip, dict(classes=[names[i % len(names)] for i in range(12)], yaml_layer=True), max_paths=600))
+    out.append(Task("featlist_roundtrip/yaml/3maps", h_featlist_roundtrip, dict(classes=names[3:6], yaml_layer=True), max_paths=600))
     out.append(Task("unknown_code", h_unknown_code, {}))
     out.append(Task("splineset", h_splineset, {}))
     out.append(Task("to_dict/MappedDFTKernel", h_serializable_contract, dict(modname="xc_evaluator", clsname="MappedDFTKernel")))
@@ -287,9 +317,10 @@ META = dict(
     functions=["ciderpress/dft/transform_data.py: <every class in ALL_CLASSES>.as_dict/from_dict, FeatureNormalizer.from_dict, FeatureList.as_dict/from_dict/dump/load",
                "ciderpress/dft/xc_evaluator.py: SplineSetEvaluator.to_dict/from_dict, MappedDFTKernel.to_dict", "ciderpress/dft/xc_evaluator2.py: MappedDFTKernel2.to_dict",
                "ciderpress/dft/model_utils.py: load_cider_model"],
-    bounds=dict(parameters="symbolic reals", features="symbolic in (0, 1e9]", cycles="2 save/load cycles",
+    bounds=dict(parameters="symbolic reals", features="symbolic in (0, 1e9]", cycles="2 save/load cycles", feature_lists="3 maps per list (all classes over the groups); through the YAML contract: 3 and 12 maps",
                 strings="CrossHair: symbolic str, per-condition timeout", file_layer="one concrete round trip per class and format"),
-    stubs=["yaml/joblib file I/O is not executed symbolically"],
+    stubs=["yaml/joblib file I/O is not executed symbolically; contract stub for the YAML layer: every mapping is rebuilt with its keys in sorted order "
+           "(yaml.dump sort_keys=True + yaml.load file order), sequences and scalars unchanged; concrete replays use the real yaml.dump/yaml.load with the loader FeatureList.load uses"],
     assumptions=["PyYAML and joblib round-trip float64 exactly (checked concretely on one sample per class)",
                  "ElectronAnalyzer.dump/load (HDF5 + PySCF objects) not covered", "NNEvaluator (torch absent) not covered"],
 )
